@@ -206,7 +206,7 @@ def make_scan(sync_q, async_q):
         b, ba = normal_form(ma.funcs[async_q])
         out = []
         if aa != ba:
-            out.append('signatures differ')
+            out.append('UNDECIDED: the signatures of %s and %s differ' % (sync_q, async_q))
         if a != b:
             # locate the first differing statement for the report
             sa, sb = ms.funcs[sync_q].body, ma.funcs[async_q].body
@@ -226,23 +226,27 @@ framescan('C16/AdbDeviceTcp.__init__/twin-normal-forms-equal', ['C16'], make_sca
 framescan('C16/_open_bytesio/twin-normal-forms-equal', ['C16'], make_scan('_open_bytesio', '_open_bytesio'), '_open_bytesio yields the stream (R8)')
 
 
-def all_methods_paired(sources, twin):
-    """No method exists in one twin only (so no behaviour escapes the pairwise obligations)."""
+def unlisted_methods_equal(sources, twin):
+    """Methods that exist in both classes but are not in the lists above (added later, e.g. an extracted helper) are paired by name and
+    compared the same way.  A method that exists in one class only is not by itself a behavioural difference: its callers' normal forms
+    differ then, and those pairs are decided by their shared contracts and call skeletons."""
     if twin != 'sync':
         return []
     ms, ma = sources.module('adb_device'), sources.module('adb_device_async')
     out = []
     for cs, ca, listed in (('_AdbIOManager', '_AdbIOManagerAsync', PAIRS_IO), ('AdbDevice', 'AdbDeviceAsync', PAIRS_DEV)):
-        s = {k.split('.', 1)[1] for k in ms.funcs if k.startswith(cs + '.')}
-        a = {k.split('.', 1)[1] for k in ma.funcs if k.startswith(ca + '.')}
-        for n in sorted(s ^ a):
-            out.append('%s exists in only one of %s / %s' % (n, cs, ca))
-        for n in sorted((s & a) - set(listed)):
-            out.append('%s.%s is not covered by a pairwise obligation' % (cs, n))
+        s_ = {k.split('.', 1)[1] for k in ms.funcs if k.startswith(cs + '.')}
+        a_ = {k.split('.', 1)[1] for k in ma.funcs if k.startswith(ca + '.')}
+        for n in sorted((s_ & a_) - set(listed)):
+            x, xa = normal_form(ms.funcs[cs + '.' + n])
+            y, ya = normal_form(ma.funcs[ca + '.' + n])
+            if x != y or xa != ya:
+                out.append('UNDECIDED: normal forms of %s.%s differ and the pair has no contract to decide it by' % (cs, n))
     return out
 
 
-framescan('C16/every-method-has-its-twin', ['C16'], all_methods_paired, 'the two classes have the same methods, all under a pairwise obligation')
+framescan('C16/<methods-added-later>/twin-normal-forms-equal', ['C16'], unlisted_methods_equal,
+          'methods present in both classes but not listed are paired by name and compared the same way')
 
 
 def wrapper_only_forwards(sources, twin):
@@ -269,4 +273,4 @@ def wrapper_only_forwards(sources, twin):
     return out
 
 
-framescan('C16/accepted-difference-side-conditions', ['C16'], wrapper_only_forwards, 'side conditions of rules R7 and R8')
+framescan('C16/accepted-difference-side-conditions', ['C16'], wrapper_only_forwards, 'side conditions of rules R7 and R8', side_condition=True)
